@@ -49,10 +49,11 @@ Lemma declared_limits_below_cap :
 Proof. vm_compute. repeat split; discriminate. Qed.
 
 Section Entities.
-  Variable addr_ok : Z -> list byte -> bool.
-  Lemma address_c11 : c11_ok (c_address addr_ok). Proof. exact (c11_of_ok _ (c_address_ok addr_ok)). Qed.
+  Variable addr_norm : Z -> list byte -> option (Z * list byte).
+  Hypothesis Hnorm : addr_norm_sound addr_norm.
+  Lemma address_c11 : c11_ok (c_address addr_norm). Proof. exact (c11_of_ok _ (c_address_ok addr_norm Hnorm)). Qed.
   Lemma coin_c11 : c11_ok c_coin. Proof. exact (c11_of_ok _ c_coin_ok). Qed.
-  Lemma output_c11 : c11_ok (c_output addr_ok). Proof. exact (c11_of_ok _ (c_output_ok addr_ok)). Qed.
+  Lemma output_c11 : c11_ok (c_output addr_norm). Proof. exact (c11_of_ok _ (c_output_ok addr_norm Hnorm)). Qed.
   Lemma btctx_c11 : c11_ok c_btctx. Proof. exact (c11_of_ok _ c_btctx_ok). Qed.
   Lemma btcblock_c11 : c11_ok c_btcblock. Proof. exact (c11_of_ok _ c_btcblock_ok). Qed.
   Lemma btcblock_raw_c11 : c11_ok c_btcblock_raw. Proof. exact (c11_of_ok _ c_btcblock_raw_ok). Qed.
@@ -61,25 +62,25 @@ Section Entities.
   Lemma merklepath_c11 : c11_ok c_merklepath. Proof. exact (c11_of_ok _ c_merklepath_ok). Qed.
   Lemma vbkmerklepath_c11 : c11_ok c_vbkmerklepath. Proof. exact (c11_of_ok _ c_vbkmerklepath_ok). Qed.
   Lemma pubdata_c11 : c11_ok c_pubdata. Proof. exact (c11_of_ok _ c_pubdata_ok). Qed.
-  Lemma vbktx_c11 : c11_ok (c_vbktx addr_ok). Proof. exact (c11_of_ok _ (c_vbktx_ok addr_ok)). Qed.
-  Lemma vbkpoptx_c11 : c11_ok (c_vbkpoptx addr_ok). Proof. exact (c11_of_ok _ (c_vbkpoptx_ok addr_ok)). Qed.
-  Lemma atv_c11 : c11_ok (c_atv addr_ok). Proof. exact (c11_of_ok _ (c_atv_ok addr_ok)). Qed.
-  Lemma vtb_c11 : c11_ok (c_vtb addr_ok). Proof. exact (c11_of_ok _ (c_vtb_ok addr_ok)). Qed.
-  Lemma popdata_c11 : c11_ok (c_popdata addr_ok). Proof. exact (c11_of_ok _ (c_popdata_ok addr_ok)). Qed.
+  Lemma vbktx_c11 : c11_ok (c_vbktx addr_norm). Proof. exact (c11_of_ok _ (c_vbktx_ok addr_norm Hnorm)). Qed.
+  Lemma vbkpoptx_c11 : c11_ok (c_vbkpoptx addr_norm). Proof. exact (c11_of_ok _ (c_vbkpoptx_ok addr_norm Hnorm)). Qed.
+  Lemma atv_c11 : c11_ok (c_atv addr_norm). Proof. exact (c11_of_ok _ (c_atv_ok addr_norm Hnorm)). Qed.
+  Lemma vtb_c11 : c11_ok (c_vtb addr_norm). Proof. exact (c11_of_ok _ (c_vtb_ok addr_norm Hnorm)). Qed.
+  Lemma popdata_c11 : c11_ok (c_popdata addr_norm). Proof. exact (c11_of_ok _ (c_popdata_ok addr_norm Hnorm)). Qed.
 
-  Lemma address_c06 : c06_ok (c_address addr_ok). Proof. exact (c06_of_ok _ (c_address_ok addr_ok)). Qed.
-  Lemma output_c06 : c06_ok (c_output addr_ok). Proof. exact (c06_of_ok _ (c_output_ok addr_ok)). Qed.
+  Lemma address_c06 : c06_ok (c_address addr_norm). Proof. exact (c06_of_ok _ (c_address_ok addr_norm Hnorm)). Qed.
+  Lemma output_c06 : c06_ok (c_output addr_norm). Proof. exact (c06_of_ok _ (c_output_ok addr_norm Hnorm)). Qed.
   Lemma btctx_c06 : c06_ok c_btctx. Proof. exact (c06_of_ok _ c_btctx_ok). Qed.
   Lemma btcblock_c06 : c06_ok c_btcblock. Proof. exact (c06_of_ok _ c_btcblock_ok). Qed.
   Lemma vbkblock_c06 : c06_ok c_vbkblock. Proof. exact (c06_of_ok _ c_vbkblock_ok). Qed.
   Lemma merklepath_c06 : c06_ok c_merklepath. Proof. exact (c06_of_ok _ c_merklepath_ok). Qed.
   Lemma vbkmerklepath_c06 : c06_ok c_vbkmerklepath. Proof. exact (c06_of_ok _ c_vbkmerklepath_ok). Qed.
   Lemma pubdata_c06 : c06_ok c_pubdata. Proof. exact (c06_of_ok _ c_pubdata_ok). Qed.
-  Lemma vbktx_c06 : c06_ok (c_vbktx addr_ok). Proof. exact (c06_of_ok _ (c_vbktx_ok addr_ok)). Qed.
-  Lemma vbkpoptx_c06 : c06_ok (c_vbkpoptx addr_ok). Proof. exact (c06_of_ok _ (c_vbkpoptx_ok addr_ok)). Qed.
-  Lemma atv_c06 : c06_ok (c_atv addr_ok). Proof. exact (c06_of_ok _ (c_atv_ok addr_ok)). Qed.
-  Lemma vtb_c06 : c06_ok (c_vtb addr_ok). Proof. exact (c06_of_ok _ (c_vtb_ok addr_ok)). Qed.
-  Lemma popdata_c06 : c06_ok (c_popdata addr_ok). Proof. exact (c06_of_ok _ (c_popdata_ok addr_ok)). Qed.
+  Lemma vbktx_c06 : c06_ok (c_vbktx addr_norm). Proof. exact (c06_of_ok _ (c_vbktx_ok addr_norm Hnorm)). Qed.
+  Lemma vbkpoptx_c06 : c06_ok (c_vbkpoptx addr_norm). Proof. exact (c06_of_ok _ (c_vbkpoptx_ok addr_norm Hnorm)). Qed.
+  Lemma atv_c06 : c06_ok (c_atv addr_norm). Proof. exact (c06_of_ok _ (c_atv_ok addr_norm Hnorm)). Qed.
+  Lemma vtb_c06 : c06_ok (c_vtb addr_norm). Proof. exact (c06_of_ok _ (c_vtb_ok addr_norm Hnorm)). Qed.
+  Lemma popdata_c06 : c06_ok (c_popdata addr_norm). Proof. exact (c06_of_ok _ (c_popdata_ok addr_norm Hnorm)). Qed.
 End Entities.
 
 (** the hypotheses are satisfiable by non-trivial values, and the decoder really
